@@ -665,7 +665,7 @@ impl World {
             })
             .is_err()
         {
-            infra("node B rejected the bump connection");
+            stuck("node B rejected the bump connection");
         }
         let ev = self.events.clone();
         wait_until("node B to report the bump session disconnected", || {
@@ -680,7 +680,7 @@ impl World {
         if self.tcp {
             // node A dials node B's real listener
             if let Err(e) = ractor_cluster::client_connect(&self.nodes[0], format!("127.0.0.1:{}", self.port_b)).await {
-                infra(format!("tcp connect to 127.0.0.1:{} failed: {e}", self.port_b));
+                stuck(format!("tcp connect to 127.0.0.1:{} failed: {e}", self.port_b));
             }
         } else {
             let ca = Chaos { stream: sa, link: link.clone(), wdir: 0, label: "a".into() };
@@ -689,7 +689,7 @@ impl World {
             if ractor_cluster::client_connect_external(&self.nodes[0], Box::new(ca)).await.is_err()
                 || self.nodes[1].cast(NodeServerMessage::ConnectionOpenedExternal { stream: Box::new(cb), is_server: true }).is_err()
             {
-                infra("node server rejected the real connection");
+                stuck("node server rejected the real connection");
             }
         }
         // The transport delivers every byte, uncut and in order. If the sessions nevertheless tear
@@ -724,23 +724,21 @@ impl World {
         let sa = sessions_of(&self.nodes[0]).await;
         let sb = sessions_of(&self.nodes[1]).await;
         if sa.len() != 1 || sb.len() != 1 {
-            infra(format!("expected one session per node, got {} / {}", sa.len(), sb.len()));
+            // not what a healthy pair of nodes shows; an observation: go on without a session
+            if debug() {
+                eprintln!("  connect: expected one session per node, got {} / {}", sa.len(), sb.len());
+            }
+            self.link = Some(link);
+            return;
         }
         let ia = sa.into_values().next().unwrap();
         let ib = sb.into_values().next().unwrap();
-        if ia.node_id != 0 || ib.node_id != 1 {
-            infra(format!("unexpected node ids a={} b={} (wanted 0 / 1)", ia.node_id, ib.node_id));
-        }
-        if ia.is_server || !ib.is_server {
-            infra("unexpected is_server flags");
-        }
-        {
-            let e = self.events.lock().unwrap();
-            let ok = e[mark..].iter().any(|x| x.0 == 0 && x.1 == EvKind::Ready && x.2 == ia.actor.get_id())
-                && e[mark..].iter().any(|x| x.0 == 1 && x.1 == EvKind::Ready && x.2 == ib.actor.get_id());
-            if !ok {
-                infra("ready events do not belong to the visible sessions");
-            }
+        // NOTE: the node ids are whatever the library assigned (0 on A and 1 on B after the bump on a
+        // healthy tree). They are not checked here: the snapshots classify group members by the node id
+        // of their ActorId, so sessions that were given the SAME node id show up as one node's remote
+        // members missing from every group (the remote references of the two sessions collide).
+        if debug() {
+            eprintln!("  connect: node ids a={} b={} is_server a={} b={}", ia.node_id, ib.node_id, ia.is_server, ib.is_server);
         }
         // The handshake carries library-random values (connection id, challenges) of varying
         // encoded length, so the number of PRNG draws so far is not reproducible. The link is
@@ -963,7 +961,7 @@ impl World {
                 let slot = Arc::new(Mutex::new(None));
                 let (r, h) = match Actor::spawn(None, Probe { idx: i, log: self.log.clone(), slot, gate: None }, ()).await {
                     Ok(x) => x,
-                    Err(e) => infra(format!("probe spawn failed: {e}")),
+                    Err(e) => stuck(format!("probe spawn failed: {e}")),
                 };
                 self.probes.insert(i, ProbeInfo { pid: r.get_id().pid(), cell: r.get_cell(), handle: h, gate: None });
             }
@@ -1129,13 +1127,13 @@ async fn run_case(case: u64, line: String) -> String {
         }
         let (r, h) = match Actor::spawn(None, server, ()).await {
             Ok(x) => x,
-            Err(e) => infra(format!("node server {name} failed to start: {e}")),
+            Err(e) => stuck(format!("node server {name} failed to start: {e}")),
         };
         if r
             .cast(NodeServerMessage::SubscribeToEvents { id: "h".into(), subscription: Box::new(Sub { node: n, events: events.clone() }) })
             .is_err()
         {
-            infra("subscribe failed");
+            stuck("subscribe failed");
         }
         let _ = sessions_of(&r).await; // mailbox barrier (subscription + PortChanged installed)
         nodes.push(r);
